@@ -439,7 +439,16 @@ pub fn deviations(schema: &SchemaModel, q: &Query, cfg: &GenCfg) -> Vec<Query> {
                             }
                         }
                     }
-                    Item::Edge(e) => collect_vars(&e.node, out),
+                    Item::Edge(e) => {
+                        for d in e.count.iter().flatten() {
+                            if let Dir::Filter { arg: Some(ArgRef::Var(v)), .. } = d {
+                                if !out.contains(v) {
+                                    out.push(v.clone());
+                                }
+                            }
+                        }
+                        collect_vars(&e.node, out)
+                    }
                 }
             }
         }
@@ -457,6 +466,22 @@ pub fn deviations(schema: &SchemaModel, q: &Query, cfg: &GenCfg) -> Vec<Query> {
                     }
                     let mut q2 = q.clone();
                     add_prop_dir(node_at_mut(&mut q2, &ni.path), prop, Dir::Filter { op: op.to_string(), arg: Some(same) });
+                    out.push(q2);
+                }
+            }
+            // ... and in a fold-count filter (count is Int!, so these uses imply Int! / [Int!]!)
+            for ni in infos.iter().skip(1) {
+                let e = edge_at(q, &ni.path);
+                if !e.fold {
+                    continue;
+                }
+                for op in ["=", ">=", "one_of"] {
+                    let same = ArgRef::Var(v.clone());
+                    if e.count.iter().flatten().any(|d| matches!(d, Dir::Filter { op: o, arg: Some(a) } if o == op && *a == same)) {
+                        continue;
+                    }
+                    let mut q2 = q.clone();
+                    edge_at_mut(&mut q2, &ni.path).count.get_or_insert_with(Vec::new).push(Dir::Filter { op: op.to_string(), arg: Some(same) });
                     out.push(q2);
                 }
             }
